@@ -42,118 +42,82 @@ def run(ctx):
         regen.check(ctx, 'R6')
 
 
-# --------------------------------------------------------------------------- order dataflow
-class Flow:
-    def __init__(self, sources=frozenset(), key=None, sorted_=False, reverse=False, sliced=False, filtered=False, hashed=False, node=None):
-        self.sources, self.key, self.sorted, self.reverse = sources, key, sorted_, reverse
-        self.sliced, self.filtered, self.hashed, self.node = sliced, filtered, hashed, node
+# --------------------------------------------------------------------------- order of the exported sub-tokens
+SRC_NAMES = {'self.pitch_duration_subtokens': 'pd', 'self.decoration_subtokens': 'deco'}
 
 
-def export_flows(ctx, fi):
-    """Flow of the sub-token lists through the locals of NoteRestToken.export (flow-insensitive, single assignment expected)."""
-    env = {}
-
-    def ev(node):
-        s = src(node)
-        if s in SOURCES:
-            return Flow(frozenset({SOURCES[s]}), node=node)
-        if isinstance(node, ast.Name):
-            return env.get(node.id, Flow())
-        if isinstance(node, (ast.ListComp, ast.GeneratorExp)) and len(node.generators) == 1:
-            g = node.generators[0]
-            base = ev(g.iter)
-            if not base.sources:
-                return Flow()
-            keeps_elem = isinstance(g.target, ast.Name) and F.is_name(node.elt, g.target.id)
-            return Flow(base.sources, base.key, base.sorted, base.reverse, base.sliced, base.filtered or bool(g.ifs), base.hashed, node)
-        if isinstance(node, ast.Call) and isinstance(node.func, ast.Name) and node.func.id == 'sorted' and node.args:
-            base = ev(node.args[0])
-            kw = {k.arg: k.value for k in node.keywords}
-            rev = 'reverse' in kw and not (isinstance(kw['reverse'], ast.Constant) and kw['reverse'].value is False)
-            return Flow(base.sources, kw.get('key'), True, rev, base.sliced, base.filtered, False, node)
-        if isinstance(node, ast.Call) and isinstance(node.func, ast.Name) and node.func.id in ('list', 'tuple') and node.args:
-            return ev(node.args[0])
-        if isinstance(node, ast.Call) and isinstance(node.func, ast.Name) and node.func.id in ('set', 'frozenset') and node.args:
-            b = ev(node.args[0])
-            return Flow(b.sources, None, False, False, b.sliced, b.filtered, True, node)
-        if isinstance(node, ast.Call) and isinstance(node.func, ast.Name) and node.func.id == 'reversed' and node.args:
-            b = ev(node.args[0])
-            return Flow(b.sources, b.key, b.sorted, not b.reverse, b.sliced, b.filtered, b.hashed, node)
-        if isinstance(node, ast.Subscript):
-            b = ev(node.value)
-            if b.sources:
-                return Flow(b.sources, b.key, b.sorted, b.reverse, True, b.filtered, b.hashed, node)
-        if isinstance(node, ast.BinOp) and isinstance(node.op, ast.Add):
-            l, r = ev(node.left), ev(node.right)
-            if l.sources or r.sources:
-                return Flow(l.sources | r.sources, None, False, False, l.sliced or r.sliced, l.filtered or r.filtered, l.hashed or r.hashed, node)
-        return Flow()
-    stmts = sorted([n for n in walk_local(fi.node) if isinstance(n, (ast.Assign, ast.Expr))], key=lambda n: n.lineno)
-    for _ in range(2):
-        for n in stmts:      # source order: a later x.sort(...) refines the earlier binding of x
-            if isinstance(n, ast.Assign) and len(n.targets) == 1 and isinstance(n.targets[0], ast.Name):
-                env[n.targets[0].id] = ev(n.value)
-            if isinstance(n, ast.Expr) and isinstance(n.value, ast.Call) and isinstance(n.value.func, ast.Attribute) \
-                    and n.value.func.attr == 'sort' and isinstance(n.value.func.value, ast.Name):
-                b = env.get(n.value.func.value.id, Flow())
-                kw = {k.arg: k.value for k in n.value.keywords}
-                env[n.value.func.value.id] = Flow(b.sources, kw.get('key'), True, 'reverse' in kw, b.sliced, b.filtered, False, n)
-    joins = []
-    for n in walk_local(fi.node):
-        if isinstance(n, ast.Call) and isinstance(n.func, ast.Attribute) and n.func.attr == 'join' and len(n.args) == 1:
-            fl = ev(n.args[0])
-            if fl.sources:
-                joins.append((n, fl))
-    # explicit += loops over a tainted list
-    for n in walk_local(fi.node):
-        if isinstance(n, ast.For):
-            fl = ev(n.iter)
-            if fl.sources and any(isinstance(x, ast.AugAssign) for x in ast.walk(n)):
-                joins.append((n, fl))
-    return env, joins, ev
+def export_joins(ctx, fi):
+    """[(join piece, path)] for every join over a sub-token list on every feasible path of NoteRestToken.export, one
+    representative per distinct (source, filter, sort) description."""
+    from . import export_model as EM
+    eps = EM.export_paths(ctx, fi, set(SRC_NAMES))
+    seen = {}
+    for ep in eps:
+        for um in ep.unmodelled(set(SRC_NAMES)):
+            raise AnalysisError(f'{fi.loc}: `{um.text[:80]}` uses a sub-token list in a way the element-wise model does not follow')
+        for j in ep.joins():
+            k = (j.seq.source, G.show(j.seq.filter()), tuple((src(x[0]) if isinstance(x[0], ast.AST) else str(x[0]), x[1]) for x in j.seq.sorts),
+                 j.seq.hashed, j.seq.sliced, src(j.seq.elt), j.sep)
+            seen.setdefault(k, (j, ep))
+    return eps, list(seen.values())
 
 
-def key_facts(key):
-    """-> (function_of_element_only, mentions_encoding, mentions_category, only_category)"""
-    if key is None:
-        return False, False, False, False
-    if isinstance(key, ast.Lambda) and len(key.args.args) == 1:
-        p = key.args.args[0].arg
-        names = {n.id for n in ast.walk(key.body) if isinstance(n, ast.Name)}
-        elem_only = names <= {p}
-        attrs = [src(n) for n in ast.walk(key.body) if isinstance(n, ast.Attribute)]
-        enc = any(a == f'{p}.encoding' for a in attrs)
-        cat = any(a.startswith(f'{p}.category') for a in attrs)
-        return elem_only, enc, cat, cat and not enc and all(a.startswith(f'{p}.category') for a in attrs)
-    return False, False, False, False
+def key_facts(ctx, key, fi):
+    """-> (function_of_element_only, mentions_encoding, mentions_category, only_category, primary component is the category)"""
+    if key is None or not isinstance(key, ast.AST):
+        return False, False, False, False, False
+    cb = F.callable_body(ctx, key, fi)
+    if cb is None or len(cb[0]) != 1:
+        return False, False, False, False, False
+    p, body = cb[0][0], cb[1]
+    names = {n.id for n in ast.walk(body) if isinstance(n, ast.Name)}
+    elem_only = names <= {p}
+    attrs = [src(n) for n in ast.walk(body) if isinstance(n, ast.Attribute)]
+    enc = any(a == f'{p}.encoding' for a in attrs)
+    cat = any(a.startswith(f'{p}.category') for a in attrs)
+    first = body.elts[0] if isinstance(body, ast.Tuple) and body.elts else body
+    primary = src(first).startswith(f'{p}.category')
+    return elem_only, enc, cat, cat and not enc and all(a.startswith(f'{p}.category') for a in attrs), primary
+
+
+def _effective_sort(seq):
+    """(key, reversed) of the LAST ordering step (a later sorted() decides the order; reversed() flips it)."""
+    key, rev, have = None, False, False
+    for k, r in seq.sorts:
+        if k == 'reversed':
+            rev = not rev
+        else:
+            key, rev, have = k, bool(r), True
+    return have, key, rev
 
 
 def r1_order_taint(ctx):
     fi = ctx.prog.func(f'{NRT}.export')
-    env, joins, ev = export_flows(ctx, fi)
+    eps, joins = export_joins(ctx, fi)
     ctx.expect_count('R1', 'joins fed by the sub-token lists', len(joins), 2)
-    for n, fl in joins:
-        at = f'{fi.module.relpath}:{n.lineno}'
-        which = '+'.join(sorted(fl.sources))
-        if fl.hashed:
+    for j, ep in joins:
+        at = f'{fi.module.relpath}:{j.node.lineno}'
+        which = SRC_NAMES[j.seq.source]
+        if j.seq.hashed:
             ctx.violation('R1', at, fi.qualname, f'hash-order:{which}', f'the {which} sub-tokens pass through a set: the output order depends on hashing')
             continue
-        if not fl.sorted:
+        have, key, rev = _effective_sort(j.seq)
+        if not have:
             ctx.violation('R1', at, fi.qualname, f'unsorted-join:{which}',
-                          f'the {which} sub-tokens reach `{src(n)[:70]}` without passing through sorted(): the exported order is the '
+                          f'the {which} sub-tokens reach `{src(j.node)[:70]}` without passing through sorted(): the exported order is the '
                           f'order in which the signifiers were written, so the normal form is not canonical')
             continue
-        elem_only, enc, cat, only_cat = key_facts(fl.key)
+        elem_only, enc, cat, only_cat, primary = key_facts(ctx, key, fi)
         ctx.check(elem_only, 'R1', at, fi.qualname, f'sort-key-not-element-function:{which}',
-                  f'{which}: the sort key is a function of the element only', f'{which}: sort key `{src(fl.key) if fl.key is not None else None}`')
-        if 'deco' in fl.sources:
+                  f'{which}: the sort key is a function of the element only', f'{which}: sort key `{src(key) if key is not None else None}`')
+        if which == 'deco':
             ctx.check(enc, 'R1', at, fi.qualname, 'decoration-key-not-total',
                       'signifiers: the sort key contains the encoding (total on distinct encodings, which de-duplication guarantees)',
-                      f'signifiers are sorted by `{src(fl.key) if fl.key is not None else None}`: two different signifiers compare '
+                      f'signifiers are sorted by `{src(key) if key is not None else None}`: two different signifiers compare '
                       f'equal, so their order is the order in which they were written')
-        ctx.check(not fl.reverse or 'deco' in fl.sources, 'R1', at, fi.qualname, f'reversed-order:{which}',
+        ctx.check(not rev or which == 'deco', 'R1', at, fi.qualname, f'reversed-order:{which}',
                   f'{which}: ascending order', f'{which}: the order is reversed')
-    return joins
+    return eps, joins
 
 
 # --------------------------------------------------------------------------- R2
@@ -248,10 +212,11 @@ def note_receives_decorations(ctx, rule):
 
 
 # --------------------------------------------------------------------------- R3
-def r3_export_order(ctx, g, joins=None, rule='R3'):
+def r3_export_order(ctx, g, flows=None, rule='R3'):
     fi = ctx.prog.func(f'{NRT}.export')
-    if joins is None:
-        _, joins, _ = export_flows(ctx, fi)
+    if flows is None:
+        flows = export_joins(ctx, fi)
+    eps, joins = flows
     members = {m.name: m.value for m in ctx.ce.enum_canonical(ctx.prog.cls(N.TOKCAT))}
     tc = ctx.prog.cls(N.TOKCAT)
     # grammar facts
@@ -266,19 +231,22 @@ def r3_export_order(ctx, g, joins=None, rule='R3'):
               f'category ranks follow the grammar order: DURATION({members["DURATION"]}) < PITCH({members["PITCH"]}) < '
               f'ALTERATION({members["ALTERATION"]}), DURATION < REST({members["REST"]})',
               'the category ranks used as the primary sort key do not follow the grammar order duration, pitch, alteration')
-    pd = [(n, fl) for n, fl in joins if 'pd' in fl.sources and fl.sorted]
-    for n, fl in pd:
-        at = f'{fi.module.relpath}:{fl.node.lineno if fl.node is not None else n.lineno}'
-        elem_only, enc, cat, only_cat = key_facts(fl.key)
+    pd = []
+    seen_keys = set()
+    for j, ep in joins:
+        have, key, rev = _effective_sort(j.seq)
+        if j.seq.source == 'self.pitch_duration_subtokens' and have and (src(key) if key is not None else None, rev) not in seen_keys:
+            seen_keys.add((src(key) if key is not None else None, rev))
+            pd.append((j, key, rev))
+    for j, key, rev in pd:
+        at = f'{fi.module.relpath}:{j.seq.node.lineno if j.seq.node is not None else j.node.lineno}'
+        elem_only, enc, cat, only_cat, primary_ok = key_facts(ctx, key, fi)
         if not cat:
             ctx.violation(rule, at, fi.qualname, 'pitch-duration-key-without-category',
-                          f'the pitch/duration sub-tokens are not ordered by category first (key `{src(fl.key) if fl.key is not None else None}`)')
+                          f'the pitch/duration sub-tokens are not ordered by category first (key `{src(key) if key is not None else None}`)')
             continue
         # category must be the primary component
-        primary_ok = True
-        if isinstance(fl.key, ast.Lambda) and isinstance(fl.key.body, ast.Tuple):
-            primary_ok = src(fl.key.body.elts[0]).startswith(f'{fl.key.args.args[0].arg}.category')
-        ctx.check(primary_ok and not fl.reverse, rule, at, fi.qualname, 'category-primary-key', 'the category rank is the primary, ascending sort key')
+        ctx.check(primary_ok and not rev, rule, at, fi.qualname, 'category-primary-key', 'the category rank is the primary, ascending sort key')
         if only_cat:
             ctx.holds(rule, at, fi.qualname, 'inside one category the (stable) sort keeps the listener order, which is the grammar order')
             continue
@@ -298,7 +266,7 @@ def r3_export_order(ctx, g, joins=None, rule='R3'):
         bad.sort()
         ctx.check(not bad, rule, at, fi.qualname, 'duration-parts-reordered',
                   'comparing encodings keeps the grammar order of the duration parts',
-                  f'the key `{src(fl.key)}` compares encodings inside the DURATION category: {bad[0][1]!r} sorts before {bad[0][0]!r}, so a '
+                  f'the key `{src(key)}` compares encodings inside the DURATION category: {bad[0][1]!r} sorts before {bad[0][0]!r}, so a '
                   f'dotted duration is exported dot first (`4.c` -> `.4c`), which re-imports as a different token (`4c.`) - the export '
                   f'is not a fixed point and a dot can be lost (`16..r` -> `..16r` -> `16r.`)')
     ctx.expect_count(rule, 'sorted pitch/duration joins', len(pd), 1)
@@ -314,22 +282,12 @@ def r3_export_order(ctx, g, joins=None, rule='R3'):
               ed.qualname, 'listener-duration-order', 'exitDuration builds number, dots, grace/appoggiatura in grammar order',
               f'exitDuration reads {order}')
     # signifiers after the pitch part
-    rets = symex.returns(fi, limit=20000)
     ok_after = True
     n_with_deco = 0
-
-    def flat(n, out):
-        if isinstance(n, ast.BinOp) and isinstance(n.op, ast.Add):
-            flat(n.left, out)
-            flat(n.right, out)
-        else:
-            out.append(n)
-        return out
-    for cond, val, sp in rets:
-        body = val.body if isinstance(val, ast.IfExp) else val
-        parts = [src(x) for x in flat(body, [])]
-        di = [k for k, x in enumerate(parts) if 'self.decoration_subtokens' in x]
-        pi = [k for k, x in enumerate(parts) if 'self.pitch_duration_subtokens' in x]
+    for ep in eps:
+        order = [p.seq.source for p in ep.all_pieces() if p.kind == 'join']
+        di = [k for k, x in enumerate(order) if x == 'self.decoration_subtokens']
+        pi = [k for k, x in enumerate(order) if x == 'self.pitch_duration_subtokens']
         if di:
             n_with_deco += 1
             if not pi or max(pi) > min(di):
